@@ -1,11 +1,21 @@
 import Pokerface.Model.Game
 import Pokerface.Generated.Logic
+import Pokerface.Proofs.ListLemmas
+import Pokerface.Proofs.GeneratedLogicBase
 /-
-  K1, translated logic: the decision logic that `harness/cmd/genlogic` translates from the Go
-  AST of the repository under test on every run (Generated/Logic.lean) equals the hand-written
-  model.  If a Go function changes, its generated definition changes and the corresponding
-  theorem below no longer checks.
+  K1, translated logic (hand evaluation and betting): the decision logic that `harness/cmd/genlogic`
+  translates from the Go AST of the repository under test on every run (Generated/Logic.lean) equals
+  the hand-written model.  If a Go function changes, its generated definition changes and the
+  corresponding theorem below no longer checks; a body the translator cannot read makes the generated
+  file fail to compile.  (Flow of the hand: Proofs/GeneratedLogicFlow.lean; seat manager:
+  Proofs/GeneratedLogicSM.lean.)
+
+  Player actions are translated as `(error, effects in order)`: every state-changing statement of the Go
+  method is recorded, in order, as a named effect (`("acted", 0)`, `("pay", delta)`, `("prev", raised)`,
+  `("Call", 0)` for `return p.Call()`, …); `effect`/`interp` below read the names on the model, and the
+  theorems `act…_eq` say that `Game.act` is that reading of the translated method.
 -/
+set_option linter.unusedSimpArgs false
 namespace Pokerface.GeneratedLogic
 open Pokerface Game
 
@@ -73,5 +83,282 @@ theorem categoryChain_eq (ranks : List Nat) (flush : Bool) :
   unfold Generated.Logic.categoryChain
   by_cases h2 : pc = 2 <;> by_cases h1 : pc = 1 <;>
     cases flush <;> cases st <;> cases a <;> cases b <;> cases c <;> simp_all
+
+/-! ### player.go `pay` -/
+
+/-- what the tuple computed by the translated `pay` says about the state -/
+def applyPay (g : Game) (i : Nat) (r : Int × Int × Int × Int × String) : Game :=
+  let g1 : Game := { g with players := g.players.modify i (fun p => { p with stack := r.1, wager := r.2.1 }),
+                            roundPot := r.2.2.1, cw := r.2.2.2.1 }
+  if r.2.2.2.2 = "raiser" then g1.becomeRaiser i
+  else if r.2.2.2.2 = "reset" then g1.resetActed else g1
+
+theorem modify_congr_at {l : List Player} {i : Nat} {p : Player} (hp : l[i]? = some p) (f f' : Player → Player)
+    (h : f p = f' p) : l.modify i f = l.modify i f' := by
+  apply List.ext_getElem?
+  intro j
+  rw [List.getElem?_modify, List.getElem?_modify]
+  by_cases hij : i = j
+  · subst hij; simp [hp, h]
+  · simp [hij]
+
+theorem pay_eq {g : Game} {i : Nat} {p : Player} (hp : g.players[i]? = some p) (chips : Int) (w : Bool) :
+    g.pay i chips w = applyPay g i (Generated.Logic.pay p.stack p.initial p.wager g.roundPot g.cw g.prev chips w) := by
+  unfold Game.pay
+  rw [hp]
+  simp only
+  unfold Generated.Logic.pay applyPay
+  by_cases h1 : p.stack ≤ chips
+  · have hm := modify_congr_at hp goAllin (fun q => { q with stack := 0, wager := p.initial }) rfl
+    cases w
+    · simp [h1, Game.payAllin, Game.addRoundPot, Game.modP, hm]
+    · by_cases h2 : p.initial > g.cw <;> by_cases h3 : p.initial - g.cw ≥ g.cw + g.prev <;>
+        simp [h1, h2, h3, Game.payAllin, Game.addRoundPot, Game.modP, Game.setCw, hm]
+  · have hm := modify_congr_at hp (putWager (p.wager + chips))
+      (fun q => { q with stack := p.initial - (p.wager + chips), wager := p.wager + chips }) rfl
+    cases w
+    · simp [h1, Game.payPart, Game.addRoundPot, Game.modP, hm]
+    · by_cases h2 : g.cw < p.wager + chips <;>
+        simp [h1, h2, Game.payPart, Game.addRoundPot, Game.modP, Game.setCw, hm]
+
+theorem pay_mark (a b c d e f x : Int) (w : Bool) :
+    (Generated.Logic.pay a b c d e f x w).2.2.2.2 = "raiser" ∨ (Generated.Logic.pay a b c d e f x w).2.2.2.2 = "reset" ∨
+      (Generated.Logic.pay a b c d e f x w).2.2.2.2 = "" := by
+  unfold Generated.Logic.pay
+  simp only
+  repeat' split
+  all_goals simp
+
+/-- the field-by-field reading of `pay_eq` -/
+theorem pay_fields {g : Game} {i : Nat} {p : Player} (hp : g.players[i]? = some p) (chips : Int) (w : Bool) :
+    let r := Generated.Logic.pay p.stack p.initial p.wager g.roundPot g.cw g.prev chips w
+    let g' := g.pay i chips w
+    (∃ q, g'.players[i]? = some q ∧ q.stack = r.1 ∧ q.wager = r.2.1 ∧
+        { q with stack := p.stack, wager := p.wager, acted := p.acted } = p) ∧
+    g'.roundPot = r.2.2.1 ∧ g'.cw = r.2.2.2.1 ∧ g'.prev = g.prev ∧
+    g'.players.length = g.players.length ∧
+    (∀ (j : Nat) (q : Player), j ≠ i → g.players[j]? = some q → ∃ q', g'.players[j]? = some q' ∧ { q' with acted := q.acted } = q) ∧
+    (r.2.2.2.2 = "raiser" ∨ r.2.2.2.2 = "reset" ∨ r.2.2.2.2 = "") ∧
+    (r.2.2.2.2 = "raiser" → g'.raiser = i ∧ ∀ (j : Nat) (q : Player), g'.players[j]? = some q → q.acted = decide (j = i)) ∧
+    (r.2.2.2.2 = "reset" → g'.raiser = g.raiser ∧ ∀ (j : Nat) (q : Player), g'.players[j]? = some q → q.acted = false) ∧
+    (r.2.2.2.2 = "" → g'.raiser = g.raiser ∧ g'.players.map Player.acted = g.players.map Player.acted) := by
+  intro r g'
+  have hg : g' = applyPay g i r := pay_eq hp chips w
+  have hmark : r.2.2.2.2 = "raiser" ∨ r.2.2.2.2 = "reset" ∨ r.2.2.2.2 = "" := pay_mark ..
+  clear_value r g'
+  subst hg
+  obtain ⟨a, b, c, d, m⟩ := r
+  simp only at hmark
+  refine ⟨?_, ?_, ?_, ?_, ?_, ?_, hmark, ?_, ?_, ?_⟩
+  · rcases hmark with rfl | rfl | rfl <;>
+      simp [applyPay, Game.becomeRaiser, Game.resetActed, Game.setActed, Game.setRaiser, Game.modP, Game.mapP, hp]
+  · rcases hmark with rfl | rfl | rfl <;> simp [applyPay, Game.becomeRaiser, Game.resetActed, Game.setActed, Game.setRaiser, Game.modP, Game.mapP]
+  · rcases hmark with rfl | rfl | rfl <;> simp [applyPay, Game.becomeRaiser, Game.resetActed, Game.setActed, Game.setRaiser, Game.modP, Game.mapP]
+  · rcases hmark with rfl | rfl | rfl <;> simp [applyPay, Game.becomeRaiser, Game.resetActed, Game.setActed, Game.setRaiser, Game.modP, Game.mapP]
+  · rcases hmark with rfl | rfl | rfl <;> simp [applyPay, Game.becomeRaiser, Game.resetActed, Game.setActed, Game.setRaiser, Game.modP, Game.mapP]
+  · intro j q hj hq
+    have hj' : ¬ i = j := fun h => hj h.symm
+    rcases hmark with rfl | rfl | rfl <;>
+      simp [applyPay, Game.becomeRaiser, Game.resetActed, Game.setActed, Game.setRaiser, Game.modP, Game.mapP, hq, hj']
+  · intro hm
+    simp only at hm
+    subst hm
+    refine ⟨by simp [applyPay, Game.becomeRaiser, Game.resetActed, Game.setActed, Game.setRaiser, Game.modP, Game.mapP], ?_⟩
+    intro j q
+    simp only [applyPay, Game.becomeRaiser, Game.resetActed, Game.setActed, Game.setRaiser, Game.modP, Game.mapP, if_true, List.getElem?_modify, List.getElem?_map]
+    by_cases hij : i = j
+    · subst hij; simp [hp]; rintro rfl; rfl
+    · have hji : ¬ j = i := fun h => hij h.symm
+      cases hq : g.players[j]? <;> simp [hij, hji]
+      rintro rfl; rfl
+  · intro hm
+    simp only at hm
+    subst hm
+    refine ⟨by simp [applyPay, Game.resetActed, Game.mapP], ?_⟩
+    intro j q
+    simp only [applyPay, Game.resetActed, Game.mapP]
+    simp
+    rintro x - rfl; rfl
+  · intro hm
+    simp only at hm
+    subst hm
+    refine ⟨by simp [applyPay], ?_⟩
+    have : (applyPay g i (a, b, c, d, "")).players
+        = g.players.modify i (fun p => { p with stack := a, wager := b }) := by simp [applyPay]
+    rw [this]
+    exact map_modify_of_proj Player.acted (fun p => { p with stack := a, wager := b }) (fun _ => rfl) _ _
+
+/-! ### player.go: the player actions, translated as (error, effects in order) -/
+
+/-- the errors of player.go by name -/
+def errOf (s : String) : Err :=
+  if s = "ErrInvalidAction" then .invalidAction
+  else if s = "ErrIllegalRaise" then .illegalRaise
+  else .unknownRound
+
+/-- the reading of one recorded effect of a player action on seat `i` -/
+def effect (i : Nat) (g : Game) (e : String × Int) : Game × Option Err :=
+  if e.1 = "acted" then (g.setActed i, none)
+  else if e.1 = "fold" then (g.modP i fun p => { p with fold := true }, none)
+  else if e.1 = "pay" then (g.pay i e.2 true, none)
+  else if e.1 = "payNoWager" then (g.pay i e.2 false, none)
+  else if e.1 = "setRaiser" then (g.setRaiser i, none)
+  else if e.1 = "resetActed" then (g.resetActed, none)
+  else if e.1 = "prev" then (g.setPrev e.2, none)
+  else if e.1 = "recordBet" then (g.recordBet i, none)
+  else if e.1 = "resume" then (g.resume, none)
+  else if e.1 = "Call" then g.act i .call 0
+  else if e.1 = "Allin" then g.act i .allin 0
+  else (g, some .unknownRound)
+
+def runEffects (i : Nat) : List (String × Int) → Game → Game × Option Err
+  | [], g => (g, none)
+  | e :: es, g =>
+    match effect i g e with
+    | (g', none) => runEffects i es g'
+    | (g', some err) => (g', some err)
+
+/-- what a translated player action (error, effects) says about the state -/
+def interp (g : Game) (i : Nat) (r : Option String × List (String × Int)) : Game × Option Err :=
+  match r.1 with
+  | some s => ((runEffects i r.2 g).1, some (errOf s))
+  | none => runEffects i r.2 g
+
+theorem actPass_eq (g : Game) (i : Nat) (x : Int) :
+    g.act i .pass x = interp g i (Generated.Logic.actPass (g.allows i .pass)) := by
+  unfold Generated.Logic.actPass Game.act
+  cases h : g.allows i .pass <;> simp [interp, runEffects, effect, errOf]
+
+theorem actCheck_eq (g : Game) (i : Nat) (x : Int) :
+    g.act i .check x = interp g i (Generated.Logic.actCheck (g.allows i .check)) := by
+  unfold Generated.Logic.actCheck Game.act
+  cases h : g.allows i .check <;> simp [interp, runEffects, effect, errOf]
+
+theorem actFold_eq (g : Game) (i : Nat) (x : Int) :
+    g.act i .fold x = interp g i (Generated.Logic.actFold (g.allows i .fold)) := by
+  unfold Generated.Logic.actFold Game.act
+  cases h : g.allows i .fold <;> simp [interp, runEffects, effect, errOf, Game.doFold, Game.setActed, Game.modP, List.modify_modify_eq]
+  rfl
+
+theorem actPay_eq (g : Game) (i : Nat) (x : Int) (ri bb sb : Bool) :
+    g.act i .pay x = interp g i (Generated.Logic.actPay (g.allows i .pay) x ri bb sb) := by
+  unfold Generated.Logic.actPay Game.act
+  cases h : g.allows i .pay <;> cases ri <;> cases bb <;> cases sb <;> simp [interp, runEffects, effect, errOf]
+
+theorem actCall_eq {g : Game} {i : Nat} {p : Player} (hp : g.players[i]? = some p) (x : Int) :
+    g.act i .call x = interp g i (Generated.Logic.actCall (g.allows i .call) g.cw p.wager g.opts.blindBB) := by
+  unfold Generated.Logic.actCall Game.act
+  cases h : g.allows i .call
+  · simp [interp, runEffects, effect, errOf]
+  · by_cases h2 : g.cw < g.opts.blindBB <;>
+      simp [interp, runEffects, effect, errOf, Game.doCall, hp, h2]
+
+theorem actAllin_eq {g : Game} {i : Nat} {p : Player} (hp : g.players[i]? = some p) (x : Int) :
+    g.act i .allin x = interp g i (Generated.Logic.actAllin (g.allows i .allin) p.stack p.initial g.cw g.prev) := by
+  unfold Generated.Logic.actAllin Game.act
+  cases h : g.allows i .allin
+  · simp [interp, runEffects, effect, errOf]
+  · by_cases h2 : p.initial - g.cw ≥ g.prev <;>
+      simp [interp, runEffects, effect, errOf, Game.doAllin, hp, h2]
+
+theorem actBet_eq (g : Game) (i : Nat) (x : Int) :
+    g.act i .bet x = interp g i (Generated.Logic.actBet (g.allows i .bet) x) := by
+  unfold Generated.Logic.actBet Game.act
+  cases h : g.allows i .bet
+  · simp [interp, runEffects, effect, errOf]
+  · by_cases h2 : x < 0 <;>
+      simp [interp, runEffects, effect, errOf, Game.doBet, h2]
+
+theorem actRaise_eq {g : Game} {i : Nat} {p : Player} (hp : g.players[i]? = some p) (x : Int) :
+    g.act i .raise x = interp g i
+      (Generated.Logic.actRaise (g.allows i .raise) x g.cw p.wager p.initial g.prev g.opts.potLimit) := by
+  unfold Generated.Logic.actRaise
+  conv => lhs; unfold Game.act
+  cases h : g.allows i .raise
+  · simp [interp, runEffects, effect, errOf]
+  · by_cases h2 : x = 0 ∨ x < g.cw
+    · simp [interp, runEffects, effect, errOf, h2]
+    · have h2a : ¬ x = 0 := fun h => h2 (Or.inl h)
+      have h2b : ¬ x < g.cw := fun h => h2 (Or.inr h)
+      have hact : ∀ a, (match g.act i a 0 with | (g', none) => (g', none) | (g', some err) => (g', some err)) = g.act i a 0 := by
+        intro a; rcases g.act i a 0 with ⟨g', _ | e⟩ <;> rfl
+      by_cases h3 : x = g.cw
+      · subst h3
+        simp only [interp, runEffects, effect, h2, h2a, h2b, if_true, if_false, Bool.not_true, Bool.false_eq_true,
+          beq_self_eq_true, Bool.or_self, decide_false, beq_iff_eq, List.nil_append, String.reduceEq, hact, Bool.or_false]
+        simp [Game.act]
+      · by_cases h4 : x ≥ p.initial ∨ x - g.cw < g.prev
+        · have h4' : (decide (x ≥ p.initial) || decide (x - g.cw < g.prev)) = true := by simpa using h4
+          simp only [interp, runEffects, effect, h2, h2a, h2b, h3, h4, h4', if_true, if_false, Bool.not_true, Bool.false_eq_true,
+            Bool.or_self, decide_false, beq_iff_eq, List.nil_append, String.reduceEq, hact, Bool.or_false, hp]
+          simp [Game.act]
+        · have h4' : (decide (x ≥ p.initial) || decide (x - g.cw < g.prev)) = false := by simpa using h4
+          simp only [h2, h2a, h2b, h3, h4, h4', if_true, if_false, Bool.not_true, Bool.false_eq_true,
+            Bool.or_self, decide_false, beq_iff_eq, List.nil_append, Bool.or_false, hp]
+          cases hpl : g.opts.potLimit
+          · simp [interp, runEffects, effect, Game.doRaise, hpl]
+          · by_cases h5 : x - g.cw > g.cw + g.prev <;>
+              simp [interp, runEffects, effect, Game.doRaise, hpl, h5]
+
+/-- game.go `BecomeRaiser` -/
+theorem becomeRaiser_eq (g : Game) (i : Nat) (wager : Int) :
+    (g.becomeRaiser i, none) = interp g i (Generated.Logic.becomeRaiser wager) := by
+  unfold Generated.Logic.becomeRaiser Game.becomeRaiser
+  by_cases h : wager > 0 <;> simp [h, interp, runEffects, effect]
+
+/-- player.go `PayAnte`, one turn of the loop of action.go `PayAnte` (whose guards make the first two
+    guards of the player's method pass) -/
+theorem playerPayAnte_eq {g : Game} {i : Nat} {p : Player} (hp : g.players[i]? = some p)
+    (ha : g.opts.ante ≠ 0) (he : g.event = .anteRequested) (is : List Nat) :
+    payAnteLoop (i :: is) g =
+      match interp g i (Generated.Logic.playerPayAnte g.opts.ante (evString g.event) p.wager) with
+      | (g', none) => payAnteLoop is g'
+      | (g', some e) => (g', some e) := by
+  unfold Generated.Logic.playerPayAnte
+  rw [Game.payAnteLoop, hp]
+  by_cases hw : p.wager > 0 <;> simp [ha, he, hw, evString, interp, runEffects, effect, errOf]
+
+/-- player.go `PayBlinds` for one seat (the guard on the event passes inside action.go `PayBlinds`) -/
+theorem playerPayBlinds_eq {g : Game} {i : Nat} {p : Player} (hp : g.players[i]? = some p)
+    (he : g.event = .blindsRequested) :
+    (g.payBlind i, none) = interp g i (Generated.Logic.playerPayBlinds (evString g.event) g.opts.blindBB g.opts.blindSB
+      g.opts.blindDealer p.posBB p.posSB p.posDealer p.stack) := by
+  unfold Generated.Logic.playerPayBlinds Game.payBlind Game.blindOf
+  rw [hp]
+  simp only [he, evString]
+  by_cases h1 : g.opts.blindBB > 0 ∧ p.posBB = true
+  · by_cases c : p.stack < g.opts.blindBB <;> simp [h1, c, interp, runEffects, effect]
+  · by_cases h2 : g.opts.blindSB > 0 ∧ p.posSB = true
+    · by_cases c : p.stack < g.opts.blindSB <;> simp [h1, h2, c, interp, runEffects, effect]
+    · by_cases h3 : g.opts.blindDealer > 0 ∧ p.posDealer = true
+      · by_cases c : p.stack < g.opts.blindDealer <;> simp [h1, h2, h3, c, interp, runEffects, effect]
+      · by_cases c : p.stack < 0 <;> simp [h1, h2, h3, c, interp, runEffects, effect]
+
+/-! ### what the translated definitions compute, on concrete inputs (non-vacuity) -/
+
+-- a raise to 10 over a wager of 4 (own wager 2, 100 behind, last raise 2, no limit)
+example : Generated.Logic.actRaise true 10 4 2 100 2 false
+    = (none, [("acted", 0), ("prev", 6), ("pay", 8), ("resume", 0)]) := by decide
+
+-- the same under pot limit with a request far above the cap: raised = cw + prev = 6, required = 6 + 4 - 2
+example : Generated.Logic.actRaise true 50 4 2 100 2 true
+    = (none, [("acted", 0), ("prev", 6), ("pay", 8), ("resume", 0)]) := by decide
+
+example : Generated.Logic.actRaise true 4 4 2 100 2 false = (none, [("Call", 0)]) := by decide
+
+example : Generated.Logic.actRaise true 5 4 2 100 2 false = (none, [("Allin", 0)]) := by decide
+
+example : Generated.Logic.actRaise true 3 4 2 100 2 false = (some "ErrIllegalRaise", []) := by decide
+
+example : Generated.Logic.actRaise false 10 4 2 100 2 false = (some "ErrInvalidAction", []) := by decide
+
+-- a call below the big blind completes to the big blind
+example : Generated.Logic.actCall true 0 0 10 = (none, [("acted", 0), ("pay", 10), ("resume", 0)]) := by decide
+
+example : Generated.Logic.actBet true (-1) = (some "ErrInvalidAction", []) := by decide
+
+example : Generated.Logic.pay 100 100 0 0 0 0 100 true = (0, 100, 100, 100, "raiser") := by decide
+
+example : Generated.Logic.pay 5 100 95 200 100 10 5 true = (0, 100, 205, 100, "reset") := by decide
 
 end Pokerface.GeneratedLogic
